@@ -14,7 +14,7 @@ import (
 func init() {
 	register(&Prop{
 		ID:         "C19",
-		Decided:    "(1) Stream.dataChan is written only under dataChanMux.Lock and read under at least RLock; (2) on the expand strategy every send on the input buffer happens while the data-channel lock is held (a swap cannot strand a row): sends on a cached channel reference occur only in strategies that never expand, and expandDataChannel is called only by the expand strategy; (3) migration: the old channel is drained under the write lock, every received row is offered to the new channel, and the swap store happens under that lock after the drain; (4) in each strategy's ProcessData every path ends after exactly one of {row enqueued, input_dropped_count incremented, stop observed} and never enqueues twice; the block strategy without timeout has no drop path; (5) growth is attempted only when oldCap < MaxBufferSize and the new capacity never exceeds MaxBufferSize (when set); (6) single consumer (shared with C05) and input_count incremented before the strategy runs.",
+		Decided:    "(1) Stream.dataChan is written only under dataChanMux.Lock and read under at least RLock; (2) on the expand strategy every send on the input buffer happens while the data-channel lock is held (a swap cannot strand a row): sends on a cached channel reference occur only in strategies that never expand, and expandDataChannel is called only by the expand strategy; (3) migration: the old channel is drained under the write lock, every received row is offered to the new channel, and the swap store happens under that lock after the drain; (4) in each strategy's ProcessData every path ends after exactly one of {row enqueued, input_dropped_count incremented, stop observed} and never enqueues twice; the block strategy without timeout has no drop path; (5) growth is attempted only when oldCap < MaxBufferSize and the new capacity never exceeds MaxBufferSize (when set); (6) single consumer (shared with C05) and input_count incremented before the strategy runs. Also: the migration's drain loop is left only after an attempt to receive from the old channel (empty, or the timeout arm) — never on a test made before trying, such as a row count sampled before the write lock (flow/migration#drain-until-empty).",
 		NotDecided: "conservation as a count under schedules, that the send into the private larger channel cannot lose to the 5 s migration timer (the path exists in the CFG and is tolerated as 'send attempted'), consumer speed.",
 		Run:        runC19,
 	})
@@ -207,6 +207,43 @@ func runC19(a *A) {
 				}
 			}
 		})
+		// the drain ends only on what the attempt to receive found (channel empty, or the documented
+		// migration timeout): every edge out of the drain loop starts in a block dominated by the select
+		// that receives from the old channel — not at a loop test made before trying (a row count sampled
+		// before the write lock was taken leaves the rows enqueued since then behind)
+		for _, lp := range sccLoops(fn) {
+			var drainSel *ssa.Select
+			for b := range lp.Blocks {
+				for _, in := range b.Instrs {
+					if sel, ok := in.(*ssa.Select); ok {
+						for _, st := range sel.States {
+							if st.Dir == types.RecvOnly {
+								if t := TermOf(st.Chan, nil); t.Kind == "field" && t.Field == dc {
+									drainSel = sel
+								}
+							}
+						}
+					}
+				}
+			}
+			if drainSel == nil {
+				continue
+			}
+			var bad *ssa.BasicBlock
+			for b := range lp.Blocks {
+				for _, sc := range b.Succs {
+					if !lp.Blocks[sc] && !(drainSel.Block() == b || drainSel.Block().Dominates(b)) {
+						bad = b
+					}
+				}
+			}
+			pos := drainSel.Pos()
+			if bad != nil {
+				pos = bad.Instrs[len(bad.Instrs)-1].Pos()
+			}
+			a.Check(bad == nil, fname(fn)+"#drain-until-empty", pos, "the drain loop is left only after an attempt to receive from the old channel (empty, or timeout)",
+				"the drain loop can be left on a test made before trying to receive from the old channel: rows still buffered there (enqueued after the count was sampled) stay in the abandoned channel, neither processed nor counted")
+		}
 		a.Check(okDrain, fname(fn)+"#drain-under-lock", fn.Pos(), "buffered rows are received from the old channel while the write lock is held", "the old channel is not drained under dataChanMux.Lock: producers could enqueue into it during migration")
 		a.Check(okOffer, fname(fn)+"#offer-each-row", fn.Pos(), "every row taken from the old channel is offered to the new one", "a row received from the old channel is not sent to the new channel: it would be lost without being counted")
 		// swap after drain: no receive from the old channel reachable after any store to dataChan
